@@ -601,6 +601,7 @@ def pick_kernel(src, fn, pick, params):
     if kind == "yield":
         c = [n for n in nodes if isinstance(n, ast.Yield) and n.value is not None]
         n = c[pick[1]]
+        straight_env(n.lineno)
         done([n.value])
         return [kt.expr(n.value, env)]
     if kind == "assign":
@@ -620,16 +621,19 @@ def pick_kernel(src, fn, pick, params):
     if kind == "callargs":
         c = [n for n in nodes if isinstance(n, ast.Call) and ((isinstance(n.func, ast.Name) and n.func.id == pick[1]) or (isinstance(n.func, ast.Attribute) and n.func.attr == pick[1]))]
         n = c[pick[3] if len(pick) > 3 else 0]
+        straight_env(n.lineno)
         done([n.args[i] for i in pick[2]])
         return [kt.expr(n.args[i], env) for i in pick[2]]
     if kind == "percent":
         c = [n for n in nodes if isinstance(n, ast.BinOp) and isinstance(n.op, ast.Mod) and isinstance(n.left, ast.Constant) and isinstance(n.left.value, str) and isinstance(n.right, ast.Tuple)]
         n = c[pick[1]]
+        straight_env(n.lineno)
         done([n.right.elts[pick[2]]])
         return [kt.expr(n.right.elts[pick[2]], env)]
     if kind == "listcomp":
         c = [n for n in nodes if isinstance(n, ast.Assign) and len(n.targets) == 1 and isinstance(n.targets[0], ast.Name) and n.targets[0].id == pick[1] and isinstance(n.value, ast.ListComp)]
         n = c[pick[2]]
+        straight_env(n.lineno)
         done([n.value.elt])
         return [kt.expr(n.value.elt, env)]
     raise Untranslatable("unknown pick %r" % (pick,))
